@@ -43,7 +43,11 @@ def animate_unit(cached, pil_source):
         self_ = st.new("ImageIterator", {"_image": image, "_cached": cached, "_repeat": R0, "_loop_no": None})
         st.ghost.update(size=z3.Int("size0"), renders=0, g_next=z3.IntVal(0), g_rep=R0, last_real=False, seeks=0)
         eng.attrs[("BlockImage", "rendered_size")] = lambda e, s, v: [(Rec("sizeid", {"id": s.ghost["size"]}), s)]
-        eng.genv["hash"] = Fn(lambda e, s, a, k: [(a[0].f["id"], s)] if isinstance(a[0], Rec) and a[0].name == "sizeid" else _unsup("hash of another value"))
+        # one dimension of the rendered size: a function of the size that does NOT determine it (different sizes share a width)
+        WIDTH_OF, HEIGHT_OF = z3.Function("rendered_width_of", I, I), z3.Function("rendered_height_of", I, I)
+        eng.attrs[("BlockImage", "rendered_width")] = lambda e, s, v: [(Rec("dimid", {"id": WIDTH_OF(s.ghost["size"])}), s)]
+        eng.attrs[("BlockImage", "rendered_height")] = lambda e, s, v: [(Rec("dimid", {"id": HEIGHT_OF(s.ghost["size"])}), s)]
+        eng.genv["hash"] = Fn(lambda e, s, a, k: [(a[0].f["id"], s)] if isinstance(a[0], Rec) and a[0].name in ("sizeid", "dimid") else _unsup("hash of another value"))
 
         def _unsup(msg):
             raise Unsupported(msg)
